@@ -10,7 +10,7 @@ from job_shop_lib.exceptions import NoSolutionFoundError
 
 from .. import feasible, gen
 from .. import fingerprint as fp
-from ..lib import build_instance
+from ..lib import build_instance, build_jobs, instance_from_jobs
 from ..model import opt_makespan
 
 ID = "C03"
@@ -49,6 +49,7 @@ def strategy(tier):
         max_total=11 if big else 9,
         flexible=False,
         zero_ok=True,
+        big_ok=True,
     )
     large = gen.instances(
         max_jobs=6, max_ops=6, max_machines=6, max_total=36, flexible=False, zero_ok=True
@@ -151,8 +152,20 @@ def check_case(case, ctx):
         ctx.nontrivial = True
         return
     shared = ORToolsSolver()
+    instance = sched = fresh = instance2 = None
     for k, inst in enumerate(insts):
-        instance = build_instance(inst)
+        # a caller solving short-lived instances in a loop: nothing of the
+        # previous iteration is kept alive (object ids may be reused)
+        # (object ids may be reused: the operations of the next instance
+        # are built first so that the instance object itself is the first
+        # allocation after the previous one is freed)
+        jobs = build_jobs(inst)
+        old_id = id(instance)
+        del instance, sched, fresh, instance2
+        fresh = instance2 = None
+        instance = instance_from_jobs(inst, jobs)
+        if k and id(instance) == old_id:
+            ctx.count("instance_id_reused")
         where = f"{kind} solve #{k}"
         n_ops = gen.num_ops(inst)
         opt = None
